@@ -423,6 +423,11 @@ fn c05_case(c: &GCase, rep: &mut Report) -> Vec<(String, String)> {
 
 // ---------------------------------------------------------------------- C06
 
+/// Block types that, on the pinned tree, answer WaitForStream/WaitForFunc/EOF from a
+/// call in which they moved data (by design of their work()): the recorded C06
+/// finding is about exactly these in the deciding pass.
+const KNOWN_MOVERS: &[&str] = &["CollectSink", "Delay", "FftFilter", "FftFilterFloat", "RationalResampler", "VectorSource"];
+
 /// Executable model of the termination rule that the known finding is about:
 /// call every live block in add order; stop after a pass in which nobody
 /// answered Again/Pending. Run on the same program, stream size and add order,
@@ -538,8 +543,19 @@ fn c06_case(c: &GCase, rep: &mut Report) -> Vec<(String, String)> {
                 let model = catch(|| known_rule_model(&p, &order));
                 let explained = matches!(&model, Ok(Ok(d)) if d.first_diff(&o.sink).is_none());
                 rep.count(if explained { "early_returns_explained_by_known_rule" } else { "early_returns_not_explained_by_known_rule" }, 1);
-                let class = if moving_non_again && explained {
+                // Which block types moved data and answered something else than Again in
+                // the deciding pass? The recorded finding names them; a block type that is
+                // not among them (e.g. a sync block) points to a different defect.
+                let mut movers: Vec<String> = last.iter().filter(|(_, v, m)| *m && *v != 0).map(|(n, _, _)| n.split('<').next().unwrap_or(n).to_string()).collect();
+                movers.sort();
+                movers.dedup();
+                rep.set("final_pass_movers", movers.join(","));
+                let unexpected: Vec<&String> = movers.iter().filter(|m| !KNOWN_MOVERS.contains(&m.as_str())).collect();
+                let unexpected_class = format!("returned-before-quiescence|unexpected-block-moved-data-with-non-Again-verdict:{}", unexpected.iter().map(|s| s.as_str()).collect::<Vec<_>>().join(","));
+                let class = if moving_non_again && explained && unexpected.is_empty() {
                     "returned-before-quiescence|final-pass-had-data-moving-non-Again-call"
+                } else if moving_non_again && explained {
+                    unexpected_class.as_str()
                 } else if moving_non_again {
                     "returned-before-quiescence|delivers-less-than-the-known-termination-rule"
                 } else {
